@@ -648,6 +648,12 @@ pub struct World {
     pub cancelled_markers: BTreeSet<String>,
 }
 
+/// the ID table through the probe handle; (-1, []) if the table's mutex is poisoned (a panic
+/// of the code under test while it held the lock - reported where it happened)
+fn msgmap_of(p: &Ldap) -> (i32, Vec<i32>) {
+    std::panic::catch_unwind(std::panic::AssertUnwindSafe(|| p.verif_msgmap())).unwrap_or((-1, vec![]))
+}
+
 fn call_name(c: &Call) -> String {
     format!("{:?}", c)
 }
@@ -903,6 +909,27 @@ impl World {
                         io.staged.clear();
                         io.deliver(&[0x30, 0x00]);
                     }
+                    FaultKind::BadResultTail => {
+                        if let Some(r) = self.server.reqs.iter_mut().find(|r| !r.done && !r.abandoned && matches!(r.kind, RK::Single(_) | RK::Search)) {
+                            // (this is the server's answer to that request: nothing more follows)
+                            r.done = true;
+                            let tag = match r.kind {
+                                RK::Single(t) => t,
+                                _ => 5,
+                            };
+                            let body = vec![
+                                Tlv::enumerated(0),
+                                Tlv::octets(vec![]),
+                                Tlv::octets(b"tail".to_vec()),
+                                Tlv::cons(CTX, 3, vec![Tlv::octets(b"ldap://x".to_vec())]),
+                                Tlv::prim(CTX, 10, b"1.2".to_vec()),
+                                Tlv::prim(CTX, 11, b"x".to_vec()),
+                                Tlv::prim(CTX, 10, vec![0xff, 0xfe]),
+                            ];
+                            let msg = Tlv::seq(vec![Tlv::int(r.id), Tlv::cons(ber::APP, tag, body)]);
+                            io.deliver(&ber::encode(&msg));
+                        }
+                    }
                     FaultKind::WriteErr => {
                         io.wmode = WMode::Err;
                         io.wake_writer();
@@ -973,15 +1000,15 @@ impl World {
         self.clients[i].cur = Some((call.clone(), self.now));
         self.clients[i].out_mark = self.io.lock().unwrap().out.len();
         self.clients[i].dead_at_start = !self.driver_alive();
-        let before = self.probe.as_ref().map(|p| p.verif_msgmap());
+        let before = self.probe.as_ref().map(|p| msgmap_of(p));
         let allocates = !matches!(call, Call::StartOwnPaging { .. }) && matches!(call, Call::Single { .. } | Call::Search { .. } | Call::SearchOpts { .. } | Call::Abandon(_) | Call::Unbind | Call::SingleViaStream { .. } | Call::StartInner { .. })
             || matches!(&call, Call::Start { own_paging, chain, .. } if !(*own_paging && matches!(chain, Chain::Paged(_) | Chain::EntriesPaged(_) | Chain::PagedEntries(_))));
         self.clients[i].task = Some(Task::new(run_call(kit, call.clone(), ab_id)));
         self.poll_client(i);
-        self.clients[i].id_at_start = self.probe.as_ref().map_or(0, |p| p.verif_msgmap().0);
+        self.clients[i].id_at_start = self.probe.as_ref().map_or(0, |p| msgmap_of(p).0);
         if self.scn.oracles.ids && allocates {
             if let (Some((last, inuse)), Some(p)) = (before, self.probe.as_ref()) {
-                let (last2, inuse2) = p.verif_msgmap();
+                let (last2, inuse2) = msgmap_of(p);
                 // reference: cyclic successor in 1..=2^31-1 skipping IDs in use
                 let mut want = last as i64;
                 loop {
@@ -1223,7 +1250,14 @@ impl World {
                     }
                     if let Some(cookie) = &r.done_cookie {
                         let served_so_far = *self.server.pages_served.get(&r.marker).unwrap_or(&0);
-                        let pc = if plan.cookie == CookieStyle::WithEstimate {
+                        let pc = if plan.cookie == CookieStyle::HugeEstimate {
+                            let est: Vec<u8> = match served_so_far {
+                                0 => vec![0x00, 0x80, 0x00, 0x00, 0x00],
+                                1 => vec![0x01, 0x00, 0x00, 0x00, 0x00, 0x00],
+                                _ => vec![0xff, 0xff, 0xff, 0xff],
+                            };
+                            Ctl { oid: PAGED_OID.as_bytes().to_vec(), crit: None, val: Some(ber::encode(&Tlv::seq(vec![Tlv::prim(UNI, 2, est), Tlv::octets(cookie.clone())]))) }
+                        } else if plan.cookie == CookieStyle::WithEstimate {
                             Ctl { oid: PAGED_OID.as_bytes().to_vec(), crit: Some(true), val: Some(paging_value(if served_so_far == 0 { 70000 } else { 128 }, cookie)) }
                         } else {
                             Ctl { oid: PAGED_OID.as_bytes().to_vec(), crit: None, val: Some(paging_value(0, cookie)) }
@@ -2133,7 +2167,7 @@ impl World {
             }
         }
         if let Some(p) = &self.probe {
-            let (_, ids) = p.verif_msgmap();
+            let (_, ids) = msgmap_of(p);
             if !ids.is_empty() {
                 let culprit = self.classify_leak(&ids);
                 self.v(&format!("leak:{}:ids:{}", self.leak_cause(&ids), culprit), format!("no operation outstanding but message IDs {:?} are still reserved ({})", ids, culprit));
@@ -2301,7 +2335,7 @@ impl World {
             self.gauges
         );
         if let Some(p) = &self.probe {
-            let _ = write!(s, "M{:?}", p.verif_msgmap());
+            let _ = write!(s, "M{:?}", msgmap_of(p));
         }
         {
             let io = self.io.lock().unwrap();
